@@ -335,3 +335,5 @@ META = {
     "assumptions": ["strings are atoms from a fixed pool", "nested layout only for tree-shaped model graphs",
                     "sqlmodel is the stub package /verif/stubs/sqlmodel"],
 }
+if isinstance(META.get("bounds"), dict) and "quick" in META["bounds"]:
+    META["bounds"]["quick"] += '; 35 key-reuse object shapes (two keys re-used one level down) as 2 samples and as 2 list elements; 2-3 files through the real CLI (pattern / one -m per file / -l) x 11 kinds'
